@@ -32,11 +32,17 @@ def shards(tier: str, seed: int) -> List[Any]:
             if w == 3 and tier == "quick":
                 d = 0  # 3 workers: the plain alphabet already has 320 letters per tick
             out.append({"workers": w, "max_fails": mf, "dev": d, "depth": depth})
+    out.append({"wiring": True})
     return out
 
 
 def run_shard(shard: Dict[str, Any]) -> Dict[str, Any]:
     acc = Acc()
+    if shard.get("wiring"):
+        from mc.cli_wiring import check_manager_wiring
+
+        check_manager_wiring(acc)
+        return acc.as_dict()
     explore_config("C18", shard["workers"], shard["max_fails"], shard["dev"], shard["depth"], acc)
     return acc.as_dict()
 
